@@ -1,9 +1,10 @@
 """C06 contracts: src/target/firmware/comm/sercomm.c (ARM build, buffer 256; HOST_BUILD, buffer 2048).
 
-Stage 1: step contracts of sercomm_sendmsg / sercomm_drv_pull / sercomm_drv_rx_char (full case tables).
-The case tables are written ONCE, as functions over an abstract transmitter / receiver state (`tx_step`, `rx_step`); the
-contracts say `abstraction(new memory) == step(abstraction(old memory))`, and the stages 2-4 of props/cparts/C06.py reason
-about the same functions (so what is proved about the steps is what the code is proved to do).
+Stage 1: step contracts of sercomm_sendmsg / sercomm_drv_pull / sercomm_drv_rx_char.
+The case tables are written ONCE, as functions over an abstract transmitter / receiver state (`tx_step`; `rx_table` for a receive buffer
+with room left, plus the RELATION of allowed outcomes when it is full, see DrvRxChar); the contracts say
+`abstraction(new memory) is a successor of abstraction(old memory)`, and the stages 2-4 of props/cparts/C06.py reason about the same
+functions / relation (`rx_abs`), so what is proved about the steps holds for every code that satisfies the step contracts.
 
 Abstraction:  transmitter  idle | (buf, d, t, n, esc): message octets buf[d..t), next octet buf[n], escape pending
               receiver     (st, dlci, ctrl, rb, rd, rt, rdl): state, address/control octets seen, payload rb[rd..rt), rdl = buffer size
@@ -41,28 +42,33 @@ def tx_step(buf, d, t, n, esc):
     return ch, c_end, buf1, n1, c_mark
 
 
-def rx_step(st, dlci, ctrl, rb, rt, rdl, ch):
-    """one sercomm_drv_rx_char(ch) with a receive buffer present ->
-       dict(ret, overflow, st, dlci, ctrl, store (Bool), val, dispatch (Bool))"""
-    overflow = rdl - rt == 0
+def rx_table(st, dlci, ctrl, ch):
+    """one sercomm_drv_rx_char(ch) while there is ROOM LEFT in the receive buffer (deterministic) ->
+       dict(st, dlci, ctrl, store (Bool), val, dispatch (Bool))"""
     in_data = z3.And(st == ST_DATA, ch != W.ESCAPE, ch != W.FLAG)
-    store = z3.And(z3.Not(overflow), z3.Or(in_data, st == ST_ESC))
+    store = z3.Or(in_data, st == ST_ESC)
     val = z3.If(st == ST_ESC, W.xor20(ch), ch)
-    dispatch = z3.And(z3.Not(overflow), st == ST_DATA, ch == W.FLAG)
+    dispatch = z3.And(st == ST_DATA, ch == W.FLAG)
     esc_ch = z3.And(ch == W.ESCAPE, z3.BoolVal(not PRE_REPAIR_TABLE))
-    st1 = z3.If(overflow, ST_WAIT,
-                z3.If(st == ST_WAIT, z3.If(ch == W.FLAG, ST_ADDR, ST_WAIT),
-                      z3.If(st == ST_ADDR, z3.If(esc_ch, ST_AESC, ST_CTRL),
-                            z3.If(st == ST_AESC, ST_CTRL,
-                                  z3.If(st == ST_CTRL, z3.If(esc_ch, ST_CESC, ST_DATA),
-                                        z3.If(st == ST_CESC, ST_DATA,
-                                              z3.If(st == ST_DATA, z3.If(ch == W.ESCAPE, ST_ESC, z3.If(ch == W.FLAG, ST_WAIT, ST_DATA)),
-                                                    z3.If(st == ST_ESC, ST_DATA, st))))))))
-    ok = z3.Not(overflow)
-    dlci1 = z3.If(z3.And(ok, st == ST_ADDR, z3.Not(esc_ch)), ch, z3.If(z3.And(ok, st == ST_AESC), W.xor20(ch), dlci))
-    ctrl1 = z3.If(z3.And(ok, st == ST_CTRL, z3.Not(esc_ch)), ch, z3.If(z3.And(ok, st == ST_CESC), W.xor20(ch), ctrl))
-    return {"ret": z3.If(overflow, 0, 1), "overflow": overflow, "st": st1, "dlci": dlci1, "ctrl": ctrl1, "store": store, "val": val,
-            "dispatch": dispatch}
+    st1 = z3.If(st == ST_WAIT, z3.If(ch == W.FLAG, ST_ADDR, ST_WAIT),
+                z3.If(st == ST_ADDR, z3.If(esc_ch, ST_AESC, ST_CTRL),
+                      z3.If(st == ST_AESC, ST_CTRL,
+                            z3.If(st == ST_CTRL, z3.If(esc_ch, ST_CESC, ST_DATA),
+                                  z3.If(st == ST_CESC, ST_DATA,
+                                        z3.If(st == ST_DATA, z3.If(ch == W.ESCAPE, ST_ESC, z3.If(ch == W.FLAG, ST_WAIT, ST_DATA)),
+                                              z3.If(st == ST_ESC, ST_DATA, st)))))))
+    dlci1 = z3.If(z3.And(st == ST_ADDR, z3.Not(esc_ch)), ch, z3.If(st == ST_AESC, W.xor20(ch), dlci))
+    ctrl1 = z3.If(z3.And(st == ST_CTRL, z3.Not(esc_ch)), ch, z3.If(st == ST_CESC, W.xor20(ch), ctrl))
+    return {"st": st1, "dlci": dlci1, "ctrl": ctrl1, "store": store, "val": val, "dispatch": dispatch}
+
+
+def header_state(st):
+    return z3.Or(st == ST_WAIT, st == ST_ADDR, st == ST_AESC, st == ST_CTRL, st == ST_CESC)
+
+
+def must_store(st, ch):
+    """the octet would have to be appended to the payload"""
+    return z3.Or(z3.And(st == ST_DATA, ch != W.FLAG, ch != W.ESCAPE), st == ST_ESC)
 
 
 # ====================================================================== assumed msgb library
@@ -343,13 +349,29 @@ class DrvPull(Contract):
 # ====================================================================== sercomm_drv_rx_char
 
 class DrvRxChar(Contract):
-    """sercomm_drv_rx_char(ch), full case table = rx_step(...):
-       no receive buffer -> one is allocated (SERCOMM_RX_MSG_SIZE octets of tailroom) first;
-       no tailroom left  -> buffer freed, a fresh one allocated, state WAIT_START, returns 0 (the over-long frame is dropped);
-       WAIT_START: 7E -> ADDR, anything else ignored;  ADDR: 7D -> ADDR_ESCAPE, else dlci := ch -> CTRL;  ADDR_ESCAPE: dlci := ch ^ 20 -> CTRL;
-       CTRL: 7D -> CTRL_ESCAPE, else ctrl := ch -> DATA;  CTRL_ESCAPE: ctrl := ch ^ 20 -> DATA;
-       DATA: 7D -> ESCAPE;  7E -> the buffer is handed to handler[dlci] (freed when dlci >= _SC_DLCI_MAX or no handler), no buffer, WAIT_START;
-             else the octet is appended;   ESCAPE: ch ^ 20 appended -> DATA;   returns 1."""
+    """sercomm_drv_rx_char(ch).  The contract is what the STATEMENT of C06 needs from the receive step, not the shape of the present code:
+
+       RI (pre and post; established by the zero-initialised `sercomm`): rx.msg is NULL or a receive buffer from sercomm_alloc_msgb(RX)
+           (4 octets of headroom, RX of room, 0 <= stored <= RX); in the states WAIT_START / ADDR / ADDR_ESCAPE / CTRL / CTRL_ESCAPE it is
+           absent or empty; the state is one of the seven enumerators.
+       no receive buffer -> one is allocated first.
+       ROOM LEFT (stored < RX): the deterministic table rx_table():
+           WAIT_START: 7E -> ADDR, anything else ignored;  ADDR: 7D -> ADDR_ESCAPE, else dlci := ch -> CTRL;  ADDR_ESCAPE: dlci := ch ^ 20 -> CTRL;
+           CTRL: 7D -> CTRL_ESCAPE, else ctrl := ch -> DATA;  CTRL_ESCAPE: ctrl := ch ^ 20 -> DATA;
+           DATA: 7D -> ESCAPE;  7E -> the buffer is handed to handler[dlci] exactly once (freed when dlci >= _SC_DLCI_MAX or no handler), no
+                 buffer, WAIT_START;  else the octet is appended;   ESCAPE: ch ^ 20 appended -> DATA.
+       BUFFER FULL (stored == RX; by RI the state is DATA or ESCAPE): a RELATION -
+           an octet that would have to be stored (DATA and not 7E/7D; ESCAPE): the frame is DISCARDED = state WAIT_START, nothing delivered,
+               the old buffer freed exactly once, afterwards no buffer or a fresh empty one;
+           DATA + 7D: discarded, or ESCAPE with the buffer untouched (the discard then happens at the next octet);
+           DATA + 7E (payload of exactly RX octets; the statement leaves this boundary open): discarded, or delivered as with room left.
+       never a store outside the buffer, never a call of a panic function (mem / ub obligations of the engine).
+
+       Loosened w.r.t. the first version of this contract (which transcribed the code: guard `tailroom == 0` before the switch):
+         - `returns` (0 on overflow, else 1) -> `returns_0_or_1`: the target's UART drivers test `< 0` only, osmocon prints a diagnostic on 0;
+         - `fresh_buffer_iff_overflow` -> `fresh_buffer_only_when_full` (+ the allowed alternatives above);
+         - nothing is said about `tailroom == 0` in a header state (unreachable under RI; the old table reset to WAIT_START there);
+         - pre-condition: the receive buffer's geometry is RI's (was: any well-formed msgb)."""
     name = "sercomm_drv_rx_char"
     inline = ("sercomm_alloc_msgb", "msgb_alloc_headroom", "msgb_reserve", "msgb_tailroom", "msgb_put", "dispatch_rx_msg")
     externals = EXTERNALS
@@ -370,13 +392,20 @@ class DrvRxChar(Contract):
             c.set_ptr(g, "rx.msg", Ptr.NULL(E.tt.parse("struct msgb")))
             c.mp = None
         else:
-            dl, d, t = (z3.Int("ghost.%s" % x) for x in ("rx_data_len", "rx_data", "rx_tail"))
-            E.assume(z3.And(0 <= d, d <= t, t <= dl, dl <= 65535))
-            mp, b = new_msgb(E, "rxmsg", V(dl, 0, 65535), V(d, 0, 65535), V(t, 0, 65535))
+            t = z3.Int("ghost.rx_tail")
+            E.assume(z3.And(4 <= t, t <= self.RX + 4))
+            mp, b = new_msgb(E, "rxmsg", V(self.RX + 4), V(4), V(t, 4, self.RX + 4))
             c.set_ptr(g, "rx.msg", mp)
-            c.mp, c.b = mp, b
-            c.inputs.update(rx_data=d, rx_tail=t, rx_data_len=dl)
+            c.mp, c.b, c.t = mp, b, t
+            c.inputs.update(stored=t - 4)
         c.inputs.update(state=v.get(g, "rx.state"), dlci=v.get(g, "rx.dlci"))
+
+    def requires(self, c):
+        st = c.view_pre.get(c.g, "rx.state")
+        r = [("RI_state_is_an_enumerator", z3.And(0 <= st, st <= 6))]
+        if c.mp is not None:
+            r.append(("RI_header_states_have_an_empty_buffer", z3.Implies(header_state(st), c.t == 4)))
+        return r
 
     def assigns(self, c):
         r = [c.region(c.g, "rx.msg"), c.region(c.g, "rx.state"), c.region(c.g, "rx.dlci"), c.region(c.g, "rx.ctrl")]
@@ -393,7 +422,7 @@ class DrvRxChar(Contract):
         return None
 
     def ensures(self, c, old, new, ret):
-        g = c.g
+        g, RX = c.g, self.RX
         o = lambda p: old.get(g, p)
         n = lambda p: new.get(g, p)
         alloc = new.ghost("allocated", [])
@@ -407,52 +436,57 @@ class DrvRxChar(Contract):
                 return [("buffer_allocated_when_missing", z3.BoolVal(False))]
             cur, first = alloc[0], 1
             d0 = t0 = z3.IntVal(4)
-            dl0, len0 = z3.IntVal(self.RX + 4), z3.IntVal(0)
-            bufblk = cur.block.buffer
-            obuf = c.E.initial_cell(bufblk, ("[]",), False)
-            fresh = msg_parts(new, cur)
-            posts.append(("fresh_buffer_has_RX_SIZE_tailroom", z3.And(fresh["dl"] == self.RX + 4, fresh["d"] == 4, fresh["h"] == 0)))
+            len0 = z3.IntVal(0)
+            obuf = c.E.initial_cell(cur.block.buffer, ("[]",), False)
         else:
             cur, first = c.mp, 0
             ob = msg_parts(old, cur)
-            d0, t0, dl0, len0, obuf = ob["d"], ob["t"], ob["dl"], ob["len"], ob["buf"]
-        e = rx_step(o("rx.state"), o("rx.dlci"), o("rx.ctrl"), obuf, t0, dl0, ch)
-        posts += [("returns", ret == e["ret"]), ("state", n("rx.state") == e["st"]), ("dlci", n("rx.dlci") == e["dlci"]), ("ctrl", n("rx.ctrl") == e["ctrl"])]
+            d0, t0, len0, obuf = ob["d"], ob["t"], ob["len"], ob["buf"]
+        st0 = o("rx.state")
+        full = (t0 - d0 == RX)
+        tb = rx_table(st0, o("rx.dlci"), o("rx.ctrl"), ch)
+        st1 = n("rx.state")
         nm = new.get(g, "rx.msg")
-        cur_freed = cur.block.name in freed
+        cur_freed = freed.count(cur.block.name)
         cur_delivered = [x for x in deliv if x["msg"].block is cur.block]
-        # overflow: old buffer freed, a new empty one in place
-        over_path = len(alloc) == first + 1
-        posts.append(("fresh_buffer_iff_overflow", e["overflow"] if over_path else z3.Not(e["overflow"])))
-        if over_path:
-            nb = msg_parts(new, alloc[-1])
-            posts += [("overlong_frame_buffer_freed", z3.BoolVal(cur_freed)), ("new_buffer_in_place", z3.BoolVal(nm is not None and nm.block is alloc[-1].block)),
-                      ("new_buffer_empty_with_RX_SIZE_tailroom", z3.And(nb["dl"] == self.RX + 4, nb["d"] == 4, nb["t"] == 4, nb["h"] == 0)),
-                      ("nothing_delivered", z3.BoolVal(not deliv))]
-            return posts
-        # frame end: handed over (or dropped), no buffer afterwards
-        gone = nm is not None and nm.block is None
-        posts.append(("buffer_given_away_iff_frame_end", e["dispatch"] if gone else z3.Not(e["dispatch"])))
-        if gone:
-            hcode = old.get(g, "rx.dlci_handler[]", o("rx.dlci"))
-            has_handler = z3.And(o("rx.dlci") < NDLCI, hcode != 0)
-            if cur_delivered:
-                dv = cur_delivered[0]
-                posts += [("delivered_once", z3.BoolVal(len(deliv) == 1 and not cur_freed)), ("only_with_a_handler", has_handler),
-                          ("to_the_handler_of_dlci", z3.And(dv["dlci"] == o("rx.dlci"), dv["handler"] == hcode)),
-                          ("payload_as_received", z3.And(dv["d"] == d0, dv["t"] == t0, dv["buf"] == obuf))]
-            else:
-                posts += [("dropped_only_without_handler", z3.Not(has_handler)), ("dropped_buffer_freed", z3.BoolVal(cur_freed))]
-            return posts
-        # ordinary octet: same buffer, possibly one octet appended
-        same = nm is not None and nm.block is cur.block
-        posts.append(("same_buffer", z3.BoolVal(bool(same) and not cur_freed and not deliv)))
-        if same:
-            nb = msg_parts(new, cur)
-            inc = z3.If(e["store"], 1, 0)
-            posts += [("tail_advances_iff_stored", nb["t"] == t0 + inc), ("len_follows", nb["len"] == len0 + inc), ("data_start_unchanged", nb["d"] == d0),
-                      ("buffer_content", nb["buf"] == z3.If(e["store"], z3.Store(obuf, t0, e["val"]), obuf)),
-                      ("tail_within_buffer", nb["t"] <= nb["dl"])]
+        hcode = old.get(g, "rx.dlci_handler[]", o("rx.dlci"))
+        has_handler = z3.And(o("rx.dlci") < NDLCI, hcode != 0)
+        posts += [("returns_0_or_1", z3.And(0 <= ret, ret <= 1)), ("dlci", n("rx.dlci") == tb["dlci"]), ("ctrl", n("rx.ctrl") == tb["ctrl"]),
+                  ("RI_state_is_an_enumerator", z3.And(0 <= st1, st1 <= 6))]
+
+        def ri_buffer(mp_, label):
+            nb = msg_parts(new, mp_)
+            return nb, [("RI_%s_geometry" % label, z3.And(nb["h"] == 0, nb["d"] == 4, nb["dl"] == RX + 4, 4 <= nb["t"], nb["t"] <= RX + 4, nb["len"] == nb["t"] - 4)),
+                        ("RI_header_states_have_an_empty_buffer", z3.Implies(header_state(st1), nb["t"] == 4))]
+        replaced = len(alloc) == first + 1 and nm is not None and nm.block is alloc[-1].block
+        gone = nm is not None and nm.block is None and len(alloc) == first
+        same = nm is not None and nm.block is cur.block and len(alloc) == first
+        if replaced:
+            # the frame is discarded, a fresh buffer is in place
+            nb, ri = ri_buffer(alloc[-1], "fresh_buffer")
+            posts += [("fresh_buffer_only_when_full", full), ("state", st1 == ST_WAIT), ("discarded_buffer_freed_exactly_once", z3.BoolVal(cur_freed == 1)),
+                      ("fresh_buffer_empty", nb["t"] == 4), ("nothing_delivered", z3.BoolVal(not deliv))] + ri
+        elif gone and cur_delivered:
+            dv = cur_delivered[0]
+            posts += [("delivery_only_at_closing_flag", tb["dispatch"]), ("state", st1 == ST_WAIT),
+                      ("delivered_once", z3.BoolVal(len(deliv) == 1 and cur_freed == 0)), ("only_with_a_handler", has_handler),
+                      ("to_the_handler_of_dlci", z3.And(dv["dlci"] == o("rx.dlci"), dv["handler"] == hcode)),
+                      ("payload_as_received", z3.And(dv["d"] == d0, dv["t"] == t0, dv["buf"] == obuf))]
+        elif gone:
+            # no buffer afterwards and nothing handed over: a frame end nobody listens to, or a discarded over-long frame
+            posts += [("state", st1 == ST_WAIT), ("dropped_buffer_freed_exactly_once", z3.BoolVal(cur_freed == 1 and not deliv)),
+                      ("dropped_only_without_handler_or_when_full", z3.Or(full, z3.And(tb["dispatch"], z3.Not(has_handler))))]
+        elif same:
+            # same buffer: with room left the table; a full buffer may only be kept to defer the discard (DATA + 7D -> ESCAPE, untouched)
+            nb, ri = ri_buffer(cur, "buffer")
+            inc = z3.If(z3.And(z3.Not(full), tb["store"]), 1, 0)
+            posts += [("full_buffer_kept_only_to_defer_the_discard", z3.Implies(full, z3.And(st0 == ST_DATA, ch == W.ESCAPE))),
+                      ("buffer_given_away_at_frame_end", z3.Implies(z3.Not(full), z3.Not(tb["dispatch"]))),
+                      ("state", st1 == tb["st"]), ("same_buffer", z3.BoolVal(cur_freed == 0 and not deliv)),
+                      ("tail_advances_iff_stored", nb["t"] == t0 + inc), ("len_follows", nb["len"] == len0 + inc),
+                      ("buffer_content", nb["buf"] == z3.If(inc == 1, z3.Store(obuf, t0, tb["val"]), obuf))] + ri
+        else:
+            posts.append(("outcome_is_one_of_discard_deliver_drop_continue", z3.BoolVal(False)))
         return posts
 
 
@@ -485,9 +519,10 @@ class RegisterRxCb(Contract):
 #   transmitter  Tx(idle, buf, d, t, n, esc)           receiver  Rx(st, dlci, ctrl, has, rb, rd, rt, rdl)
 #   pull_start   = DrvPull case idle, message dequeued  (opening_flag, now_transmitting_it, starts_at_first_octet, state_unchanged)
 #   pull_busy    = DrvPull case busy                    (octet, buffer, next, escape_flag, idle_only_at_end, message_bounds_unchanged)
-#   rx_abs       = DrvRxChar, both cases                (fresh_buffer_has_RX_SIZE_tailroom, returns, state, dlci, ctrl, fresh_buffer_iff_overflow,
-#                                                        new_buffer_empty_with_RX_SIZE_tailroom, buffer_given_away_iff_frame_end, payload_as_received,
-#                                                        to_the_handler_of_dlci, tail_advances_iff_stored, data_start_unchanged, buffer_content)
+#   rx_abs       = DrvRxChar, both cases, a RELATION    (state, dlci, ctrl, RI_*, fresh_buffer_only_when_full, fresh_buffer_empty, nothing_delivered,
+#                                                        delivery_only_at_closing_flag, payload_as_received, to_the_handler_of_dlci,
+#                                                        dropped_only_without_handler_or_when_full, full_buffer_kept_only_to_defer_the_discard,
+#                                                        buffer_given_away_at_frame_end, tail_advances_iff_stored, buffer_content)
 
 class Tx:
     def __init__(self, tag):
@@ -533,18 +568,29 @@ def pull_start(tx, mbuf, md, mt):
 
 
 def rx_abs(rx, ch, RX, tag):
-    """-> (ret, rx', delivered: dict(flag, dlci, buf, d, t))"""
+    """the receive step as the contract of sercomm_drv_rx_char allows it -> (rx', info: dict(discard, delivered-flag, dlci, buf, d, t)).
+    The outcomes the contract leaves open when the buffer is full are free Boolean constants (`defer`, `deliver at the boundary`, `no fresh
+    buffer`): an obligation that holds for all their values holds for every implementation of the contract.  A full buffer in a header
+    state is excluded by RI; the contract says nothing there, so the successor is unconstrained (fresh constants)."""
     I = z3.IntSort()
     fresh1, fresh2 = z3.Array(tag + ".fresh1", I, I), z3.Array(tag + ".fresh2", I, I)
+    defer, deliver, absent = z3.Bool(tag + ".defer"), z3.Bool(tag + ".deliver_at_boundary"), z3.Bool(tag + ".no_fresh_buffer")
     rb0 = z3.If(rx.has, rx.rb, fresh1)
     rd0, rt0, rdl0 = z3.If(rx.has, rx.rd, 4), z3.If(rx.has, rx.rt, 4), z3.If(rx.has, rx.rdl, RX + 4)
-    e = rx_step(rx.st, rx.dlci, rx.ctrl, rb0, rt0, rdl0, ch)
-    ov, dp = e["overflow"], e["dispatch"]
-    inc = z3.If(e["store"], 1, 0)
-    rx1 = rx.but(st=e["st"], dlci=e["dlci"], ctrl=e["ctrl"], has=z3.Not(dp),
-                 rb=z3.If(ov, fresh2, z3.If(e["store"], z3.Store(rb0, rt0, e["val"]), rb0)),
-                 rd=z3.If(ov, 4, rd0), rt=z3.If(ov, 4, rt0 + inc), rdl=z3.If(ov, RX + 4, rdl0))
-    return e["ret"], rx1, {"flag": dp, "dlci": rx.dlci, "buf": rb0, "d": rd0, "t": rt0}
+    full = rdl0 - rt0 == 0
+    tb = rx_table(rx.st, rx.dlci, rx.ctrl, ch)
+    in_data = rx.st == ST_DATA
+    discard = z3.And(full, z3.Or(must_store(rx.st, ch), z3.And(in_data, ch == W.ESCAPE, z3.Not(defer)), z3.And(in_data, ch == W.FLAG, z3.Not(deliver))))
+    unspec = z3.And(full, header_state(rx.st))
+    dp = z3.And(tb["dispatch"], z3.Not(discard))
+    inc = z3.If(z3.And(tb["store"], z3.Not(full)), 1, 0)
+    u = Rx(tag + ".unspecified")
+    pick = lambda a, b_, c_: z3.If(unspec, a, z3.If(discard, b_, c_))
+    rx1 = rx.but(st=pick(u.st, ST_WAIT, tb["st"]), dlci=z3.If(unspec, u.dlci, tb["dlci"]), ctrl=z3.If(unspec, u.ctrl, tb["ctrl"]),
+                 has=pick(u.has, z3.Not(absent), z3.Not(dp)),
+                 rb=pick(u.rb, fresh2, z3.If(inc == 1, z3.Store(rb0, rt0, tb["val"]), rb0)),
+                 rd=pick(u.rd, 4, rd0), rt=pick(u.rt, 4, rt0 + inc), rdl=pick(u.rdl, RX + 4, rdl0))
+    return rx1, {"discard": discard, "flag": z3.And(dp, z3.Not(unspec)), "dlci": rx.dlci, "buf": rb0, "d": rd0, "t": rt0, "full": full}
 
 
 def octet(x):
@@ -553,7 +599,7 @@ def octet(x):
 
 def rx_geometry(rx, RX):
     """buffers are only ever allocated by sercomm_alloc_msgb(SERCOMM_RX_MSG_SIZE) and only appended to"""
-    return z3.Implies(rx.has, z3.And(rx.rd == 4, rx.rdl == RX + 4, rx.rd <= rx.rt, rx.rt <= rx.rdl))
+    return z3.And(0 <= rx.st, rx.st <= 6, z3.Implies(rx.has, z3.And(rx.rd == 4, rx.rdl == RX + 4, rx.rd <= rx.rt, rx.rt <= rx.rdl)))
 
 
 def rx_empty(rx):
